@@ -167,7 +167,9 @@ ogg_uint32_t *_make_words(char *l,long n,long sparsecount){
    thought of it.  Therefore, we opt on the side of caution */
 long _book_maptype1_quantvals(const static_codebook *b){
   long vals;
-  if(b->entries<1){
+  if(b->entries<1 || b->dim<1){
+    /* no lattice to size; with dim==0 the search below would never
+       terminate */
     return(0);
   }
   vals=floor(pow((float)b->entries,1.f/b->dim));
